@@ -16,10 +16,109 @@ def configs(tier, seed):
     # "a nested body / its callees run only with the enclosing body" is this property as well
     from . import c12
 
-    return systematic_configs(SCHEDULERS) + c12.deep_configs(tier) + batch_configs(tier, seed, 40, 400, 12 if tier == "quick" else 25, OPTS, SCHEDULERS)
+    return [dict(dropped=v) for v in DROPPED] + systematic_configs(SCHEDULERS) + c12.deep_configs(tier) + batch_configs(tier, seed, 40, 400, 12 if tier == "quick" else 25, OPTS, SCHEDULERS)
+
+
+DROPPED = ["uncalled-condition", "uncalled-connect-side", "uncalled-connect-side-chain", "uncalled-method", "called (control)"]
+
+
+def _make_dropped(variant):
+    """bodies nested in a body that never runs: a plain nested transaction (calling a target method) and a nested method (called by an
+    independent transaction) inside (a) a branch of a condition() in a method nobody calls, (b) a transaction that calls Connect.write
+    while nobody calls Connect.read, (c) the same two Connects down a chain, (d) a method nobody calls, (e) control: everything called."""
+    from amaranth import Elaboratable, Signal
+    from transactron import TModule, Transaction, Method, def_method
+    from transactron.lib import Connect
+    from transactron.lib.simultaneous import condition
+    from ..harness import Harness
+
+    class D(Elaboratable):
+        def __init__(self):
+            self.req, self.req_u = Signal(name="req"), Signal(name="req_u")
+            self.o = {n: Signal(name="o_" + n) for n in ("encl", "nested", "target", "nmeth", "user")}
+
+        def elaborate(self, platform):
+            m = TModule()
+            keep = Signal(name="_keep_sync")
+            m.d.sync += keep.eq(1)
+            target, nmeth = Method(name="target"), Method(name="nmeth")
+
+            @def_method(m, target)
+            def _():
+                m.d.comb += self.o["target"].eq(1)
+
+            def inner():  # what is nested in the enclosing body
+                m.d.comb += self.o["encl"].eq(1)
+                with (t := Transaction(name="nested")).body(m, ready=self.req):
+                    target(m)
+                m.d.top_comb += self.o["nested"].eq(t.run)
+
+                @def_method(m, nmeth)
+                def _():
+                    m.d.comb += self.o["nmeth"].eq(1)
+
+            if variant in ("uncalled-condition", "uncalled-method", "called (control)"):
+                holder = Method(name="holder")
+
+                @def_method(m, holder)
+                def _():
+                    if variant == "uncalled-condition":
+                        with condition(m, nonblocking=True) as branch:
+                            with branch(True):
+                                inner()
+                    else:
+                        inner()
+
+                if variant == "called (control)":
+                    with Transaction(name="caller").body(m):
+                        holder(m)
+            else:
+                n = 2 if variant.endswith("chain") else 1
+                cs = [Connect([("d", 2)]) for _ in range(n)]
+                for i, c in enumerate(cs):
+                    m.submodules[f"c{i}"] = c
+                for i in range(n):
+                    with Transaction(name=f"T{i}").body(m):
+                        if i > 0:
+                            cs[i - 1].read(m)
+                        cs[i].write(m, d=1)
+                        if i == n - 1:
+                            inner()
+            with Transaction(name="user").body(m, ready=self.req_u):
+                m.d.comb += self.o["user"].eq(1)
+                nmeth(m)
+            return m
+
+    d = D()
+    return Harness(d, {}, inputs=dict(req=d.req, req_u=d.req_u), observe=lambda d: dict(d.o))
+
+
+def _run_dropped(cfg, ctx):
+    import z3
+    from ..harness import Built
+    from ..seq import Unroll
+
+    v = cfg["dropped"]
+    b = Built(lambda: _make_dropped(v))
+    u = Unroll(b, free_init=True)
+    o = u.cycle()
+    ctx.frames += 1
+    B = lambda n: o.sig(n) == 1
+    tag = f"bodies nested in a body that never runs [{v}]: "
+    if v == "called (control)":
+        ctx.witness(tag + "the nested transaction and the nested method run", [B("nested"), B("nmeth")])
+        ctx.prove(tag + "the enclosing body runs in this control design", [], B("encl"), u)
+    else:
+        ctx.prove(tag + "the enclosing body never runs (nobody calls it / its simultaneous partner)", [], z3.Not(B("encl")), u)
+    ctx.prove(tag + "C04 a nested transaction runs only with its enclosing body", [], z3.Implies(B("nested"), B("encl")), u)
+    ctx.prove(tag + "C04 the method called by the nested transaction runs only with it", [], B("target") == B("nested"), u)
+    ctx.prove(tag + "C04 a method defined inside the body runs only with the enclosing body", [], z3.Implies(B("nmeth"), B("encl")), u)
+    ctx.prove(tag + "the caller of the nested method runs only if that method runs", [], z3.Implies(B("user"), B("nmeth")), u)
 
 
 def run(cfg, ctx):
+    if "dropped" in cfg:
+        return _run_dropped(cfg, ctx)
     if cfg.get("deep"):
         from . import c12
 
